@@ -1,5 +1,6 @@
 CONFIG = dict(
-    coqfiles=["Props/C12.v"],
+    coqfiles=["Props/C12.v", "Props/C12W.v"],
+    sub=["C12W"],
     n_quick=1600, n_thorough=30000, workers_quick=8,
     rule="(a) selector cases: pool of 3-10 shards (SHA-256 key hashes computed by Go, weights incl. 1, 2^31, 2^32-1; 35% with weights 1-2 so that score ties are findable), "
          "base map + 3 random permutations + every single removal + 2 additions, 8 (quick) / 40 (thorough) hashes incl. 0,1,2^k,2^k-1,2^64-1 plus up to 2 hashes on which the best two shards tie; "
